@@ -4,6 +4,33 @@ import json, os
 VERIF = os.path.dirname(os.path.dirname(os.path.abspath(__file__)))
 ALL = ['C%02d' % i for i in range(1, 21)]
 CLAIMED = {
+ 'C01': dict(
+   text='C01_decode_encode: for each of the 66 base mnemonics and ALL operands (any register spelling, any integer), a word returned by the '
+        'generated encoder (py2coq translation of the format functions, partial() table and INSTRUCTIONS dictionary, regenerated per run) is '
+        '< 2^32 and decode32 (hand-written Spec from the ISA manual) yields exactly the instruction the operands name; C01_injective: equal '
+        'words imply equal normalised operand tuples; C01_registers: lookup_register accepts exactly the documented spellings. The 9 format '
+        'encoders are proved equal to arithmetic normal forms symbolically (no sweep). Falsifier: real encoders + one-line text path over full '
+        'immediate ranges, decoded by the extracted Spec.',
+   note='Trusted: Coq kernel, py2coq, Spec decoder + operand reading (Spec/RV32.v, Spec/Operands.v), hand model of int(s,0) (PyBase.py_int_lit, differentially tested), '
+        'extraction/drivers. The little-endian packing and the text front end are covered by the falsifier (text path) and by C09/C13, not by these theorems. Zero axioms.',
+   technique='Coq proof over translator-regenerated encoders (symbolic bit-field lemmas) + differential run of generated code + Spec-decoding falsifier',
+   design='6/C01'),
+ 'C02': dict(
+   text='C02_forward: any halfword a generated c.* encoder returns (all operand spellings, ALL integers) is a legal non-hint non-reserved RV32C encoding '
+        'whose decode16 names the operands; C02_converse: each of the 65 536 halfwords that decode16 accepts is produced from its canonical operands; '
+        'C02_injective. Proof: symbolic guard extraction per mnemonic + in-kernel sweep (vm_compute) over the complete guard box of every mnemonic and over all halfwords. '
+        'Falsifier: all tuples in and around the legal sets on the real encoders; all 65 536 halfwords re-assembled from canonical text by the real assembler.',
+   note='Trusted: as C01 plus the vm_compute machine for the finite sweeps; Spec/RVC.v decode16 (cross-checked: accepts 28 461 halfwords).',
+   technique='Coq proof: symbolic guard lemmas + exhaustive in-kernel sweeps over generated encoders; exhaustive falsifier',
+   design='6/C02'),
+ 'C06': dict(
+   text='C06_exact_base / C06_exact_compressed: for all 93 mnemonics the generated encoder accepts an operand tuple IF AND ONLY IF every operand is readable and inside '
+        'the documented set (Spec/Legal.v: interval, scale, register class, non-zero, shamt<32, CSR 0..4095), for all integers; C06_no_truncation_*: what is accepted decodes to the operands named. '
+        'Falsifier: every bound +-, all residues, far-out values, all register numbers/names on real encoders and on one-line programs (AssemblerError, no output).',
+   note='Trusted: as C01/C02; the documented operand sets are my reading of the manuals (tools/isa.py is an independent second transcription used by the falsifier). '
+        'The ValueError->AssemblerError conversion of resolve_instructions is exercised by the falsifier text path and modelled in C15.',
+   technique='Coq proof (iff) over translator-regenerated encoders; boundary-enumerating falsifier with independent operand-set table',
+   design='6/C06'),
  'C07': dict(
    text='Theorems C07_hi_fits / C07_lo_fits / C07_rebuild are proved for EVERY integer v about the Gallina translation of '
         'asm.relocate_hi / relocate_lo / sign_extend that tools/py2coq.py regenerates from /repo on every run; the generated '
